@@ -385,11 +385,11 @@ func uniq(ss []string) []string {
 }
 
 // vc renders the SMT-LIB script that decides one obligation: unsat = discharged.
-func (t *fnTrans) vc(o *Obligation) string {
+func (t *fnTrans) vc(o *Obligation, weakIx bool) string {
 	var b strings.Builder
 	b.WriteString("; obligation " + o.Name + "\n; " + o.Desc + "\n; at " + o.Pos + "\n")
 	b.WriteString("(set-option :produce-models true)\n(set-logic ALL)\n")
-	b.WriteString(t.S.prelude())
+	b.WriteString(strings.Replace(t.S.prelude(), ";IXAXIOM\n", t.S.ixAxiom(weakIx), 1))
 	for _, d := range t.S.decls {
 		b.WriteString(d + "\n")
 	}
